@@ -1591,3 +1591,15 @@ package avro
 //@   loop 1 invariant w != nil && len(b0) <= len(w.buf) && (forall k int :: 0 <= k && k < len(b0) ==> w.buf[k] == old(b0[k])) && (base(w.buf) == old(base(w.buf)) || (newobj(w.buf) && !cowned(w.buf))) && off(w.buf) == old(off(w.buf)) && bhframe(b0)
 //@   after mapiterelem#1 apply mapelem_ok(m.valueCodec, mp, v)
 //@   loop 1 decreases iterleft()
+
+// ---------------------------------------------------------------- construction of the file writer and of write buffers (C09, C16)
+//@ func NewFileWriter
+//@   props C09, C16
+//@   ensures [C09,C16] err == nil ==> wfFW(res) && res.schema == schema
+//@   ensures [C09,C02] err == nil ==> samebytes(res.compression, compression)
+//@   modifies BH
+
+//@ func NewWriteBuf
+//@   props C09, C16
+//@   ensures [C09,C16] res != nil && res.buf == buf
+//@   pure
